@@ -6,7 +6,7 @@ CONSTANTS
   SplitByFlush = FALSE
   KeepSubs = FALSE
   FlushVaries = TRUE
-  Kinds = {"P", "PS", "S1", "S2", "A1", "A2"}
-  TTLs = {0, 2}
+  Kinds = {"P", "PS", "S1"}
+  TTLs = {0, 1, 2}
 INVARIANTS NeverLonger NotEarlier Present WellFormed KeysNeeded SubsNeeded
 CHECK_DEADLOCK FALSE
